@@ -148,188 +148,207 @@ fn announce_json(hash: &[u8; 20], pid: &[u8; 20], event: &str, left: Option<usiz
 pub fn run(out: &mut impl Write, seed: u64, cases: usize, _replay: &str, burst: usize) {
     let mut master = Sm::new(seed);
     for case in 0..cases {
-        let mut r = master.fork(case as u64);
-        let socket_workers = r.pick(&[1usize, 2, 3]);
-        let swarm_workers = r.pick(&[1usize, 2, 3]);
-        let max_offers = r.pick(&[1usize, 2, 10]);
-        let burst_case = case % 3 == 2;
-        let args = vec![format!("socket_workers={}", socket_workers), format!("swarm_workers={}", swarm_workers), format!("max_offers={}", max_offers)];
-        let Some(mut server) = Server::start("ws", &args) else {
-            writeln!(out, "cfg wsnet {} 255\nnet START-FAILED", max_offers).unwrap();
-            continue;
-        };
-        writeln!(out, "cfg wsnet {} 255", max_offers).unwrap();
-        writeln!(out, "net socket_workers={} swarm_workers={} burst={}", socket_workers, swarm_workers, burst_case).unwrap();
-        writeln!(out, "new").unwrap();
-        // first byte spreads the torrents over the swarm workers
-        let hashes: Vec<[u8; 20]> = (0..4u8).map(|i| { let mut h = id20(0x68, i + 1); h[0] = 0x61 + i; h }).collect();
-        let nclients = r.pick(&[3usize, 4, 6]);
-        let mut clients: Vec<Client> = (0..nclients).map(|_| Client { conn: WsConn::connect(server.port) }).collect();
-        let pids: Vec<[u8; 20]> = (0..64u8).map(|i| id20(0x2d, i)).collect();
-        let mut forwarded: Vec<(String, String, usize, String)> = Vec::new(); // hash, from pid, to client, offer id
-        let mut announced: std::collections::HashMap<(usize, [u8; 20]), [u8; 20]> = std::collections::HashMap::new();
-        let mut next_oid: u8 = 1;
-        let nops = if burst_case { 8 } else { 10 + r.below(10) as usize };
-        for opi in 0..nops {
-            let live: Vec<usize> = (0..clients.len()).filter(|i| clients[*i].conn.is_some()).collect();
-            if live.len() < 2 { break; }
-            let ci = live[r.below(live.len() as u64) as usize];
-            let k = r.below(100);
-            // once per history (two thirds in): a connection that has announced a torrent announces it under
-            // another peer id, with any event
-            let mut directed: Option<(usize, [u8; 20], [u8; 20], String)> = None;
-            if !burst_case && opi == nops * 2 / 3 && live.len() >= 3 {
-                let mut own: Vec<(usize, [u8; 20])> = announced.iter().filter(|((c, _), p)| live.contains(c) && **p == pids[*c]).map(|((c, h), _)| (*c, *h)).collect();
-                own.sort();
-                if !own.is_empty() {
-                    let (c, h) = own[r.below(own.len() as u64) as usize];
-                    let other = pids[(c + 1 + r.below(clients.len() as u64 - 1) as usize) % clients.len()];
-                    directed = Some((c, h, other, r.pick(&["stopped", "stopped", "started", "none", "completed"]).to_string()));
-                }
-            }
-            let (ci, k) = if let Some((c, _, _, _)) = &directed { (*c, 0) } else { (ci, k) };
-            if burst_case && opi == nops - 2 {
-                // announces for several torrents in one go, then an abrupt disconnect
-                let nb: usize = burst;
-                let bh: Vec<[u8; 20]> = (0..nb).map(|i| { let mut h = id20(0x62, (i % 250) as u8); h[18] = (i / 250) as u8; h[0] = 0x30 + (i % 9) as u8; h }).collect();
-                let pid = pids[ci];
-                let conn = clients[ci].conn.as_mut().unwrap();
-                for h in &bh { conn.send_text(&announce_json(h, &pid, "started", Some(5), &None, &None), 15000); }
-                clients[ci].conn.take().unwrap().close(false);
-                writeln!(out, "wburst 4 0 {} {} {}", ci, bh.iter().map(|h| hex(h)).collect::<Vec<_>>().join(","), hex(&pid)).unwrap();
-                // somebody else looks at those torrents (in chunks: one reply each), again and again until nothing
-                // of the dropped connection is left or patience runs out: the tracker needs time for the burst and
-                // the close notice, more on a loaded machine; a tracker that forgets nothing never gets there
-                let live: Vec<usize> = (0..clients.len()).filter(|i| clients[*i].conn.is_some()).collect();
-                let si = live[0];
-                let t0 = std::time::Instant::now();
-                let patience = crate::net::patience();
-                std::thread::sleep(Duration::from_millis(300));
-                let _ = collect(&mut clients, Duration::from_millis(100), Duration::from_millis(500));
-                let lines = loop {
-                    let mut lines = Vec::new();
-                    let mut clean = true;
-                    for chunk in bh.chunks(20) {
-                        let req = format!(r#"{{"action":"scrape","info_hash":[{}]}}"#, chunk.iter().map(js20).collect::<Vec<_>>().join(","));
-                        let mut got: Vec<String> = Vec::new();
-                        if let Some(conn) = clients[si].conn.as_mut() {
-                            conn.send_text(&req, 15000);
-                            let t1 = std::time::Instant::now();
-                            while t1.elapsed() < patience {
-                                match conn.recv_text(Duration::from_millis(50)) {
-                                    Ok(Some(t)) => { let m = msg_text(si, &t); let is_s = m.starts_with("S:"); got.push(m); if is_s { break; } }
-                                    Ok(None) => {}
-                                    Err(_) => break,
+        // a case in which some answer never came is run again (up to three times in all) from the same random
+        // state: what the tracker does deterministically shows every time, a stall of the machine does not
+        let r0 = master.fork(case as u64);
+        let mut attempt = 0;
+        loop {
+            let timeouts_before = crate::net::timeouts();
+            let mut case_buf: Vec<u8> = Vec::new();
+            {
+                let out = &mut case_buf;
+                let mut r = r0.clone();
+                'case: {
+                        let socket_workers = r.pick(&[1usize, 2, 3]);
+                        let swarm_workers = r.pick(&[1usize, 2, 3]);
+                        let max_offers = r.pick(&[1usize, 2, 10]);
+                        let burst_case = case % 3 == 2;
+                        let args = vec![format!("socket_workers={}", socket_workers), format!("swarm_workers={}", swarm_workers), format!("max_offers={}", max_offers)];
+                        let Some(mut server) = Server::start("ws", &args) else {
+                    crate::net::note_timeout();
+                            writeln!(out, "cfg wsnet {} 255\nnet START-FAILED", max_offers).unwrap();
+                            break 'case;
+                        };
+                        writeln!(out, "cfg wsnet {} 255", max_offers).unwrap();
+                        writeln!(out, "net socket_workers={} swarm_workers={} burst={}", socket_workers, swarm_workers, burst_case).unwrap();
+                        writeln!(out, "new").unwrap();
+                        // first byte spreads the torrents over the swarm workers
+                        let hashes: Vec<[u8; 20]> = (0..4u8).map(|i| { let mut h = id20(0x68, i + 1); h[0] = 0x61 + i; h }).collect();
+                        let nclients = r.pick(&[3usize, 4, 6]);
+                        let mut clients: Vec<Client> = (0..nclients).map(|_| Client { conn: WsConn::connect(server.port) }).collect();
+                        let pids: Vec<[u8; 20]> = (0..64u8).map(|i| id20(0x2d, i)).collect();
+                        let mut forwarded: Vec<(String, String, usize, String)> = Vec::new(); // hash, from pid, to client, offer id
+                        let mut announced: std::collections::HashMap<(usize, [u8; 20]), [u8; 20]> = std::collections::HashMap::new();
+                        let mut next_oid: u8 = 1;
+                        let nops = if burst_case { 8 } else { 10 + r.below(10) as usize };
+                        for opi in 0..nops {
+                            let live: Vec<usize> = (0..clients.len()).filter(|i| clients[*i].conn.is_some()).collect();
+                            if live.len() < 2 { break; }
+                            let ci = live[r.below(live.len() as u64) as usize];
+                            let k = r.below(100);
+                            // once per history (two thirds in): a connection that has announced a torrent announces it under
+                            // another peer id, with any event
+                            let mut directed: Option<(usize, [u8; 20], [u8; 20], String)> = None;
+                            if !burst_case && opi == nops * 2 / 3 && live.len() >= 3 {
+                                let mut own: Vec<(usize, [u8; 20])> = announced.iter().filter(|((c, _), p)| live.contains(c) && **p == pids[*c]).map(|((c, h), _)| (*c, *h)).collect();
+                                own.sort();
+                                if !own.is_empty() {
+                                    let (c, h) = own[r.below(own.len() as u64) as usize];
+                                    let other = pids[(c + 1 + r.below(clients.len() as u64 - 1) as usize) % clients.len()];
+                                    directed = Some((c, h, other, r.pick(&["stopped", "stopped", "started", "none", "completed"]).to_string()));
                                 }
                             }
-                        }
-                        got.sort();
-                        for m in got.iter().filter(|m| m.starts_with("S:")) {
-                            let files = m.splitn(3, ':').nth(2).unwrap_or("-");
-                            if files != "-" && files.split(',').any(|e| !e.ends_with("=0:0")) { clean = false; }
-                        }
-                        lines.push(format!("wscr 4 0 {} {} => {}", si, chunk.iter().map(|h| hex(h)).collect::<Vec<_>>().join(","), if got.is_empty() { "-".to_string() } else { got.join(" ") }));
-                    }
-                    if clean || t0.elapsed() > patience { if !clean { crate::net::note_timeout(); } break lines; }
-                    std::thread::sleep(Duration::from_millis(300));
-                };
-                for l in lines { writeln!(out, "{}", l).unwrap(); }
-                continue;
-            }
-            if k < 70 {
-                let hash = hashes[r.below(hashes.len() as u64) as usize];
-                let pid = if r.chance(if announced.contains_key(&(ci, hash)) { 78 } else { 88 }) { pids[ci] } else { pids[r.below(clients.len() as u64) as usize] };
-                let event = r.pick(&["started", "stopped", "completed", "update", "none", "none", "none"]).to_string();
-                let event = if event == "stopped" && r.chance(50) { "none".to_string() } else { event };
-                // a second peer id on a connection that has announced this torrent: every kind of event, `stopped` often
-                // (the check of the peer id must not depend on the event)
-                let event = if pid != pids[ci] && announced.contains_key(&(ci, hash)) && r.chance(45) { "stopped".to_string() } else { event };
-                let (hash, pid, event) = if let Some((_, h, p, e)) = &directed { (*h, *p, e.clone()) } else { (hash, pid, event) };
-                let left = r.pick(&[None, Some(0usize), Some(0), Some(7), Some(7)]);
-                let offers = if r.chance(55) {
-                    let n = r.below(4) as usize;
-                    Some((0..n).map(|_| { let o = id20(0x6f, next_oid); next_oid = next_oid.wrapping_add(1).max(1); (o, r.below(1000) as u32) }).collect::<Vec<_>>())
-                } else { None };
-                let mut hash = hash;
-                let mut pid = pid;
-                let mut ci = ci;
-                let answer = if directed.is_none() && r.chance(35) && !forwarded.is_empty() {
-                    let f = forwarded[r.below(forwarded.len() as u64) as usize].clone();
-                    if clients[f.2].conn.is_some() && r.chance(80) { ci = f.2; pid = pids[ci]; }
-                    hash = crate::store::arr20(&crate::store::unhex(&f.0));
-                    Some((crate::store::arr20(&crate::store::unhex(&f.1)), crate::store::arr20(&crate::store::unhex(&f.3)), r.below(1000) as u32))
-                } else if r.chance(10) {
-                    Some((pids[r.below(pids.len() as u64) as usize], id20(0x6f, 200), 1))
-                } else { None };
-                let is_stopped = event == "stopped";
-                let text = announce_json(&hash, &pid, &event, left, &offers, &answer);
-                let line = crate::wsstore::Op::Ann { fam: 4, consumer: 0, slot: ci as u32, allowed: true, now: 0, hash, pid, event, left, offers, answer }.text();
-                if !clients[ci].conn.as_mut().unwrap().send_text(&text, 15000) { clients[ci].conn = None; }
-                // a second peer id for a torrent this connection has announced: the tracker answers with an error and
-                // ends the connection.  No fence on this connection then - a request left unread in the tracker's
-                // socket when it closes turns the close into a reset, which discards the error reply on our side -
-                // just read until the connection ends.
-                let second_pid = announced.get(&(ci, hash)).map(|p| *p != pid).unwrap_or(false);
-                // (the tracker's own record: kept from the first announce, dropped by a `stopped` one)
-                if !second_pid { if is_stopped { announced.remove(&(ci, hash)); } else { announced.entry((ci, hash)).or_insert(pid); } }
-                let mut got = Vec::new();
-                if second_pid {
-                    if let Some(conn) = clients[ci].conn.as_mut() {
-                        let t1 = std::time::Instant::now();
-                        let patience = crate::net::patience();
-                        loop {
-                            match conn.recv_text(Duration::from_millis(50)) {
-                                Ok(Some(t)) => got.push(msg_text(ci, &t)),
-                                Ok(None) => { if t1.elapsed() > patience { crate::net::note_timeout(); got.push(format!("?:0.{}:connection-not-closed-after-second-peer-id", ci)); break; } }
-                                Err(_) => break,
+                            let (ci, k) = if let Some((c, _, _, _)) = &directed { (*c, 0) } else { (ci, k) };
+                            if burst_case && opi == nops - 2 {
+                                // announces for several torrents in one go, then an abrupt disconnect
+                                let nb: usize = burst;
+                                let bh: Vec<[u8; 20]> = (0..nb).map(|i| { let mut h = id20(0x62, (i % 250) as u8); h[18] = (i / 250) as u8; h[0] = 0x30 + (i % 9) as u8; h }).collect();
+                                let pid = pids[ci];
+                                let conn = clients[ci].conn.as_mut().unwrap();
+                                for h in &bh { conn.send_text(&announce_json(h, &pid, "started", Some(5), &None, &None), 15000); }
+                                clients[ci].conn.take().unwrap().close(false);
+                                writeln!(out, "wburst 4 0 {} {} {}", ci, bh.iter().map(|h| hex(h)).collect::<Vec<_>>().join(","), hex(&pid)).unwrap();
+                                // somebody else looks at those torrents (in chunks: one reply each), again and again until nothing
+                                // of the dropped connection is left or patience runs out: the tracker needs time for the burst and
+                                // the close notice, more on a loaded machine; a tracker that forgets nothing never gets there
+                                let live: Vec<usize> = (0..clients.len()).filter(|i| clients[*i].conn.is_some()).collect();
+                                let si = live[0];
+                                let t0 = std::time::Instant::now();
+                                let patience = crate::net::patience();
+                                std::thread::sleep(Duration::from_millis(300));
+                                let _ = collect(&mut clients, Duration::from_millis(100), Duration::from_millis(500));
+                                let lines = loop {
+                                    let mut lines = Vec::new();
+                                    let mut clean = true;
+                                    for chunk in bh.chunks(20) {
+                                        let req = format!(r#"{{"action":"scrape","info_hash":[{}]}}"#, chunk.iter().map(js20).collect::<Vec<_>>().join(","));
+                                        let mut got: Vec<String> = Vec::new();
+                                        if let Some(conn) = clients[si].conn.as_mut() {
+                                            conn.send_text(&req, 15000);
+                                            let t1 = std::time::Instant::now();
+                                            while t1.elapsed() < patience {
+                                                match conn.recv_text(Duration::from_millis(50)) {
+                                                    Ok(Some(t)) => { let m = msg_text(si, &t); let is_s = m.starts_with("S:"); got.push(m); if is_s { break; } }
+                                                    Ok(None) => {}
+                                                    Err(_) => break,
+                                                }
+                                            }
+                                        }
+                                        got.sort();
+                                        for m in got.iter().filter(|m| m.starts_with("S:")) {
+                                            let files = m.splitn(3, ':').nth(2).unwrap_or("-");
+                                            if files != "-" && files.split(',').any(|e| !e.ends_with("=0:0")) { clean = false; }
+                                        }
+                                        lines.push(format!("wscr 4 0 {} {} => {}", si, chunk.iter().map(|h| hex(h)).collect::<Vec<_>>().join(","), if got.is_empty() { "-".to_string() } else { got.join(" ") }));
+                                    }
+                                    if clean || t0.elapsed() > patience { if !clean { crate::net::note_timeout(); } break lines; }
+                                    std::thread::sleep(Duration::from_millis(300));
+                                };
+                                for l in lines { writeln!(out, "{}", l).unwrap(); }
+                                continue;
+                            }
+                            if k < 70 {
+                                let hash = hashes[r.below(hashes.len() as u64) as usize];
+                                let pid = if r.chance(if announced.contains_key(&(ci, hash)) { 78 } else { 88 }) { pids[ci] } else { pids[r.below(clients.len() as u64) as usize] };
+                                let event = r.pick(&["started", "stopped", "completed", "update", "none", "none", "none"]).to_string();
+                                let event = if event == "stopped" && r.chance(50) { "none".to_string() } else { event };
+                                // a second peer id on a connection that has announced this torrent: every kind of event, `stopped` often
+                                // (the check of the peer id must not depend on the event)
+                                let event = if pid != pids[ci] && announced.contains_key(&(ci, hash)) && r.chance(45) { "stopped".to_string() } else { event };
+                                let (hash, pid, event) = if let Some((_, h, p, e)) = &directed { (*h, *p, e.clone()) } else { (hash, pid, event) };
+                                let left = r.pick(&[None, Some(0usize), Some(0), Some(7), Some(7)]);
+                                let offers = if r.chance(55) {
+                                    let n = r.below(4) as usize;
+                                    Some((0..n).map(|_| { let o = id20(0x6f, next_oid); next_oid = next_oid.wrapping_add(1).max(1); (o, r.below(1000) as u32) }).collect::<Vec<_>>())
+                                } else { None };
+                                let mut hash = hash;
+                                let mut pid = pid;
+                                let mut ci = ci;
+                                let answer = if directed.is_none() && r.chance(35) && !forwarded.is_empty() {
+                                    let f = forwarded[r.below(forwarded.len() as u64) as usize].clone();
+                                    if clients[f.2].conn.is_some() && r.chance(80) { ci = f.2; pid = pids[ci]; }
+                                    hash = crate::store::arr20(&crate::store::unhex(&f.0));
+                                    Some((crate::store::arr20(&crate::store::unhex(&f.1)), crate::store::arr20(&crate::store::unhex(&f.3)), r.below(1000) as u32))
+                                } else if r.chance(10) {
+                                    Some((pids[r.below(pids.len() as u64) as usize], id20(0x6f, 200), 1))
+                                } else { None };
+                                let is_stopped = event == "stopped";
+                                let text = announce_json(&hash, &pid, &event, left, &offers, &answer);
+                                let line = crate::wsstore::Op::Ann { fam: 4, consumer: 0, slot: ci as u32, allowed: true, now: 0, hash, pid, event, left, offers, answer }.text();
+                                if !clients[ci].conn.as_mut().unwrap().send_text(&text, 15000) { crate::net::note_timeout(); clients[ci].conn = None; }
+                                // a second peer id for a torrent this connection has announced: the tracker answers with an error and
+                                // ends the connection.  No fence on this connection then - a request left unread in the tracker's
+                                // socket when it closes turns the close into a reset, which discards the error reply on our side -
+                                // just read until the connection ends.
+                                let second_pid = announced.get(&(ci, hash)).map(|p| *p != pid).unwrap_or(false);
+                                // (the tracker's own record: kept from the first announce, dropped by a `stopped` one)
+                                if !second_pid { if is_stopped { announced.remove(&(ci, hash)); } else { announced.entry((ci, hash)).or_insert(pid); } }
+                                let mut got = Vec::new();
+                                if second_pid {
+                                    if let Some(conn) = clients[ci].conn.as_mut() {
+                                        let t1 = std::time::Instant::now();
+                                        let patience = crate::net::patience();
+                                        loop {
+                                            match conn.recv_text(Duration::from_millis(50)) {
+                                                Ok(Some(t)) => got.push(msg_text(ci, &t)),
+                                                Ok(None) => { if t1.elapsed() > patience { crate::net::note_timeout(); got.push(format!("?:0.{}:connection-not-closed-after-second-peer-id", ci)); break; } }
+                                                Err(_) => break,
+                                            }
+                                        }
+                                    }
+                                    clients[ci].conn = None;
+                                    announced.retain(|(c, _), _| *c != ci);
+                                    // the close notice travels to the swarm workers on its own channel: give it the time a `wclose` gets
+                                    std::thread::sleep(Duration::from_millis(600));
+                                    let alive = (0..clients.len()).find(|i| clients[*i].conn.is_some());
+                                    if let Some(alive) = alive { got.extend(fenced(&mut clients, alive, &hash, 0)); }
+                                    got.sort();
+                                } else {
+                                    got = fenced(&mut clients, ci, &hash, 0);
+                                }
+                                for m in &got {
+                                    let p: Vec<&str> = m.split(':').collect();
+                                    if p.len() == 6 && p[0] == "O" {
+                                        let to: usize = p[1].split('.').nth(1).and_then(|x| x.parse().ok()).unwrap_or(0);
+                                        forwarded.push((p[2].to_string(), p[3].to_string(), to, p[4].to_string()));
+                                    }
+                                }
+                                writeln!(out, "{} => {}", line, if got.is_empty() { "-".to_string() } else { got.join(" ") }).unwrap();
+                            } else if k < 82 {
+                                // (now and then a scrape that names no torrent: it must be answered all the same)
+                                let cnt = if r.chance(12) { 0 } else { 1 + r.below(4) as usize };
+                                let hs: Vec<[u8; 20]> = (0..cnt).map(|_| if r.chance(85) { hashes[r.below(hashes.len() as u64) as usize] } else { id20(0x78, r.below(3) as u8) }).collect();
+                                let req = if hs.len() == 1 && r.chance(50) { format!(r#"{{"action":"scrape","info_hash":{}}}"#, js20(&hs[0])) }
+                                          else { format!(r#"{{"action":"scrape","info_hash":[{}]}}"#, hs.iter().map(js20).collect::<Vec<_>>().join(",")) };
+                                if !clients[ci].conn.as_mut().unwrap().send_text(&req, 15000) { crate::net::note_timeout(); clients[ci].conn = None; }
+                                let got = fenced_with(&mut clients, ci, &req, 1);
+                                writeln!(out, "wscr 4 0 {} {} => {}", ci, if hs.is_empty() { "-".to_string() } else { hs.iter().map(|h| hex(h)).collect::<Vec<_>>().join(",") }, if got.is_empty() { "-".to_string() } else { got.join(" ") }).unwrap();
+                            } else if k < 92 {
+                                let orderly = r.chance(50);
+                                clients[ci].conn.take().unwrap().close(orderly);
+                                std::thread::sleep(Duration::from_millis(600));
+                                let alive = (0..clients.len()).find(|i| clients[*i].conn.is_some()).unwrap_or(0);
+                                let got = fenced(&mut clients, alive, &hashes[0], 0);
+                                writeln!(out, "wclose 4 0 {} => {}", ci, if got.is_empty() { "-".to_string() } else { got.join(" ") }).unwrap();
+                                // a new connection under a fresh index
+                                clients.push(Client { conn: WsConn::connect(server.port) });
+                            } else {
+                                // garbage on this connection: an error reply, nobody else is affected
+                                let text = r.pick(&["{", "[1,2,3]", "{\"action\":\"announce\"}", "not json", "{\"action\":\"scrape\"}"]);
+                                if !clients[ci].conn.as_mut().unwrap().send_text(text, 15000) { clients[ci].conn = None; }
+                                let got = fenced(&mut clients, ci, &hashes[0], 0);
+                                writeln!(out, "wbad 4 0 {} {} => {}", ci, hex(text.as_bytes()), if got.is_empty() { "-".to_string() } else { got.join(" ") }).unwrap();
                             }
                         }
-                    }
-                    clients[ci].conn = None;
-                    announced.retain(|(c, _), _| *c != ci);
-                    let alive = (0..clients.len()).find(|i| clients[*i].conn.is_some());
-                    if let Some(alive) = alive { got.extend(fenced(&mut clients, alive, &hash, 0)); }
-                    got.sort();
-                } else {
-                    got = fenced(&mut clients, ci, &hash, 0);
+                        if let Some(l) = server.exit_line(Duration::from_millis(0)) {
+                            writeln!(out, "net TRACKER-EXITED {}", l.replace(' ', "_")).unwrap();
+                        }
+                        server.stop();
                 }
-                for m in &got {
-                    let p: Vec<&str> = m.split(':').collect();
-                    if p.len() == 6 && p[0] == "O" {
-                        let to: usize = p[1].split('.').nth(1).and_then(|x| x.parse().ok()).unwrap_or(0);
-                        forwarded.push((p[2].to_string(), p[3].to_string(), to, p[4].to_string()));
-                    }
-                }
-                writeln!(out, "{} => {}", line, if got.is_empty() { "-".to_string() } else { got.join(" ") }).unwrap();
-            } else if k < 82 {
-                // (now and then a scrape that names no torrent: it must be answered all the same)
-                let cnt = if r.chance(12) { 0 } else { 1 + r.below(4) as usize };
-                let hs: Vec<[u8; 20]> = (0..cnt).map(|_| if r.chance(85) { hashes[r.below(hashes.len() as u64) as usize] } else { id20(0x78, r.below(3) as u8) }).collect();
-                let req = if hs.len() == 1 && r.chance(50) { format!(r#"{{"action":"scrape","info_hash":{}}}"#, js20(&hs[0])) }
-                          else { format!(r#"{{"action":"scrape","info_hash":[{}]}}"#, hs.iter().map(js20).collect::<Vec<_>>().join(",")) };
-                if !clients[ci].conn.as_mut().unwrap().send_text(&req, 15000) { clients[ci].conn = None; }
-                let got = fenced_with(&mut clients, ci, &req, 1);
-                writeln!(out, "wscr 4 0 {} {} => {}", ci, if hs.is_empty() { "-".to_string() } else { hs.iter().map(|h| hex(h)).collect::<Vec<_>>().join(",") }, if got.is_empty() { "-".to_string() } else { got.join(" ") }).unwrap();
-            } else if k < 92 {
-                let orderly = r.chance(50);
-                clients[ci].conn.take().unwrap().close(orderly);
-                std::thread::sleep(Duration::from_millis(600));
-                let alive = (0..clients.len()).find(|i| clients[*i].conn.is_some()).unwrap_or(0);
-                let got = fenced(&mut clients, alive, &hashes[0], 0);
-                writeln!(out, "wclose 4 0 {} => {}", ci, if got.is_empty() { "-".to_string() } else { got.join(" ") }).unwrap();
-                // a new connection under a fresh index
-                clients.push(Client { conn: WsConn::connect(server.port) });
-            } else {
-                // garbage on this connection: an error reply, nobody else is affected
-                let text = r.pick(&["{", "[1,2,3]", "{\"action\":\"announce\"}", "not json", "{\"action\":\"scrape\"}"]);
-                if !clients[ci].conn.as_mut().unwrap().send_text(text, 15000) { clients[ci].conn = None; }
-                let got = fenced(&mut clients, ci, &hashes[0], 0);
-                writeln!(out, "wbad 4 0 {} {} => {}", ci, hex(text.as_bytes()), if got.is_empty() { "-".to_string() } else { got.join(" ") }).unwrap();
             }
+            if crate::net::timeouts() == timeouts_before || attempt >= 2 { out.write_all(&case_buf).unwrap(); break; }
+            crate::net::set_timeouts(timeouts_before);
+            attempt += 1;
         }
-        if let Some(l) = server.exit_line(Duration::from_millis(0)) {
-            writeln!(out, "net TRACKER-EXITED {}", l.replace(' ', "_")).unwrap();
-        }
-        server.stop();
     }
 }
